@@ -11,3 +11,19 @@ func (u *userConnection) VerifIn() *util.InQueue { return &u.in }
 
 // VerifOut exposes the client's out-queue.
 func (dc *ClientDnsConnection) VerifOut() *util.OutQueue { return &dc.out }
+
+// VerifOut exposes the server-side out-queue of a user connection.
+func (u *userConnection) VerifOut() *util.OutQueue { return &u.out }
+
+// VerifSetDownMtu sets the fragment size the server cuts this user's writes into.
+func (u *userConnection) VerifSetDownMtu(m uint32) { u.Serializer.Downstream.FragmentSize = m }
+
+// VerifIn exposes the client's in-queue.
+func (dc *ClientDnsConnection) VerifIn() *util.InQueue { return &dc.in }
+
+// VerifPoll is one turn of the poll loop Handshake starts (without its timer): the head of the out-queue, or a
+// bare ping when it is empty, goes through SendAndReceive.
+func (dc *ClientDnsConnection) VerifPoll() error {
+	chunk := dc.out.NextChunk()
+	return dc.SendAndReceive(chunk)
+}
